@@ -23,6 +23,7 @@ import (
 	"grol.io/grol/lexer"
 	"grol.io/grol/object"
 	"grol.io/grol/parser"
+	"grol.io/grol/simhook"
 	"grol.io/grol/token"
 )
 
@@ -123,20 +124,25 @@ func AutoSave(s *eval.State, options Options) error {
 		log.Infof("Nothing changed, not auto saving")
 		return nil
 	}
+	simhook.Point("autosave:before-createtemp")
 	f, err := os.CreateTemp(".", ".grol*.tmp")
 	if err != nil {
 		return err
 	}
+	simhook.Point("autosave:after-createtemp")
 	// Write to temp file.
 	n, err := s.SaveGlobals(f)
 	if err != nil {
 		return err
 	}
+	simhook.Point("autosave:after-save")
 	// Rename "atomically" (not really but close enough).
+	simhook.Point("autosave:before-rename")
 	err = os.Rename(f.Name(), AutoSaveFile)
 	if err != nil {
 		return err
 	}
+	simhook.Point("autosave:after-rename")
 	log.Infof("Auto saved %d ids/fns (%d set) to: %s", n, updates, AutoSaveFile)
 	return nil
 }
